@@ -342,6 +342,39 @@ def _snapshot_without_postcondition():
     return f(1)
 
 
+def _result_parameter():
+    @icontract.ensure(lambda result: result > 0, enabled=True)
+    def f(result):
+        return 1
+
+    return f(5)
+
+
+def _old_parameter():
+    @icontract.snapshot(lambda x: x, name="x", enabled=True)
+    @icontract.ensure(lambda OLD, result: OLD.x == result, enabled=True)
+    def f(x, OLD=None):
+        return x
+
+    return f(1)
+
+
+def _result_keyword():
+    @icontract.ensure(lambda result: result == 1, enabled=True)
+    def f(x, **kwargs):
+        return 1
+
+    return f(1, result=2)
+
+
+def _result_parameter_async():
+    @icontract.ensure(lambda result: result > 0, enabled=True)
+    async def f(result):
+        return 1
+
+    return asyncio.run(f(5))
+
+
 def _property_overrides_method():
     class M0(icontract.DBC):
         @icontract.ensure(lambda result: result > 0, enabled=True)
@@ -357,7 +390,8 @@ def _property_overrides_method():
     return M1().x
 
 
-for _name, _thunk in (("property-overrides-method", _property_overrides_method), ("coroutine-invariant", _coroutine_invariant), ("coroutine-condition", _coroutine_condition),
+for _name, _thunk in (("result-parameter", _result_parameter), ("OLD-parameter", _old_parameter), ("result-keyword", _result_keyword),
+                      ("result-parameter-async", _result_parameter_async), ("property-overrides-method", _property_overrides_method), ("coroutine-invariant", _coroutine_invariant), ("coroutine-condition", _coroutine_condition),
                       ("coroutine-capture", _coroutine_capture), ("require-added-to-inherited-groups", _require_added_to_inherited_groups),
                       ("weaken-enabled-base", _weaken_enabled_base), ("weaken-enabled-base-violation", _weaken_enabled_base_violation),
                       ("invalid-error-argument", _invalid_error_argument), ("snapshot-without-postcondition", _snapshot_without_postcondition)):
